@@ -34,7 +34,7 @@ COMPONENTS = {"real": "whole IPhreeqc library from /repo's working tree compiled
 ASSUMPTIONS = ["TSan sees only instrumented code (libc/libstdc++ internals are not instrumented)",
                "clients never touch another client's live id (constructor publishes the id before initialisation finishes: outside the contract)",
                "transcripts are compared within one build variant only"]
-REACH_PROBES = ["inside_preemptions", "blocked_on_mutex", "dead_id_calls", "repeat_compared", "isolation_compared", "families:transport", "families:kinetics", "families:inverse", "families:basic"]
+REACH_PROBES = ["cross_thread_dead_ids", "inside_preemptions", "blocked_on_mutex", "dead_id_calls", "repeat_compared", "isolation_compared", "families:transport", "families:kinetics", "families:inverse", "families:basic"]
 tiers = {"quick": dict(runs=320, budget_s=170, workers=16), "thorough": dict(runs=3000, budget_s=1700, workers=16)}
 UNREPEATABLE_CLASSES = ()
 
@@ -63,8 +63,15 @@ def generate(rng, tier, index):
                                "outfile": r.chance(15), "logstr": r.chance(50), "dead": r.range(0, 2), "overlap": r.chance(30),
                                "dbstring": r.chance(15)})
         clients.append({"lifecycles": lifecycles, "clock_inc": r.choice([0, 0, 1, 1000, 250000]), "clock_jump": r.choice([0, 0, -2 ** 31, 2 ** 31])})
+    # cross-thread dead ids: a client hands the id of an instance it has destroyed to a client with a higher index (waits only go
+    # downwards, so they cannot form a cycle), which then uses that id: it must be as dead there as in the thread that destroyed it
+    cross = []
+    for c in range(nclients - 1):
+        if rng.chance(60):
+            cross.append({"from": c, "lifecycle": rng.below(len(clients[c]["lifecycles"])), "to": rng.range(c + 1, nclients - 1), "flag": len(cross),
+                          "after": rng.below(3)})
     return {"prop": PROP, "clients": clients, "preempt": rng.choice([2, 5, 10, 25, 40, 60]), "sched_seed": rng.next() >> 1,
-            "heap_pad": rng.choice([0, 4096, 120000])}
+            "heap_pad": rng.choice([0, 4096, 120000]), "cross": cross}
 
 
 def compile_client(prog, ci, plan):
@@ -76,11 +83,21 @@ def compile_client(prog, ci, plan):
         marks.append(mark)
 
     emit(["clock", "1000000", str(prog["clock_inc"]), "40" if prog["clock_jump"] else "0", str(prog["clock_jump"])])
+    cross_out = [x for x in plan.get("cross", []) if x["from"] == ci]
+    cross_in = [x for x in plan.get("cross", []) if x["to"] == ci]
+    slot_of_lifecycle = {}
     slot = ci * 20
     open_slots = []
     deadslots = []
     for li, lc in enumerate(prog["lifecycles"]):
         slot += 1
+        slot_of_lifecycle[li] = slot
+        for x in cross_in:
+            if x["after"] == li:
+                emit(["await", str(x["flag"])])
+                for fn, want in (("GetOutputFileOn", BADINST), ("SetDumpStringOn", BADINST), ("GetErrorString", "GetErrorString: Invalid instance id.\n"), ("RunString", BADINST), ("DestroyRaw", BADINST)):
+                    args = {"RunString": ["SOLUTION 1\nEND\n"], "SetDumpStringOn": [1]}.get(fn, [])
+                    emit(call("c", "f%d" % x["flag"], fn, *args), ("dead", want))
         b = lc["api"]
         t = "s%d" % slot
         tag = "L%d" % li
@@ -131,6 +148,17 @@ def compile_client(prog, ci, plan):
                 emit(["destroy", str(s2), "cpp" if b2 == "cpp" else "c"], "ret0")
                 deadslots.append(s2)
             open_slots = []
+            for x in cross_out:
+                if slot_of_lifecycle.get(x["lifecycle"]) in deadslots and not x.get("_sent"):
+                    emit(["signal", str(x["flag"]), str(slot_of_lifecycle[x["lifecycle"]])])
+                    x["_sent"] = True
+    for x in cross_in:          # waits whose lifecycle index does not exist in this client: at the end
+        if x["after"] >= len(prog["lifecycles"]):
+            emit(["await", str(x["flag"])])
+            emit(call("c", "f%d" % x["flag"], "GetOutputFileOn"), ("dead", BADINST))
+            emit(call("c", "f%d" % x["flag"], "DestroyRaw"), ("dead", BADINST))
+    for x in cross_out:
+        x.pop("_sent", None)
     return ops, marks
 
 
@@ -181,6 +209,7 @@ def check_plan(ctx, plan):
     if ntsan:
         tail = exA.stderr_tail(6000)
         rep.viol("tsan", "tsan:" + tsan_key(tail), "ThreadSanitizer reported %d issue(s) during the concurrent run:\n%s" % (ntsan, tail[-3000:]))
+    rep.count("cross_thread_dead_ids", sum(1 for ci2 in range(len(clients)) for o in res.client(ci2) if clients[ci2][o.idx][0] == "await" and o.f and o.f[0] == "received"))
     if "mutex_unlock_without_lock" in res.events:
         rep.count("unlock_without_lock")
     inside = int(res.done.get("inside", 0))
